@@ -88,6 +88,7 @@ func runC02(c *Ctx) {
 	c.r025(pk)
 	c.r026(pk)
 	c.r027(pk)
+	c.r029(pk)
 	c.R.Rule("R02.8", "R01.3 restricted to renamer.rename: every save `p := m.renamer.rename` is followed, on every path from the later assignment of the switch to a function exit, by the restore `m.renamer.rename = p` — a leaked `on` lets the rest of an enclosing function that contains `with` be renamed")
 	c.r013(pk, "R02.8", map[string]bool{"rename": true})
 }
@@ -873,4 +874,69 @@ func (c *Ctx) r026(pk *packages.Package) {
 		return true
 	})
 	c.R.Floor(rule, "alphabet constants", cnt["identStart"]+cnt["identContinue"], 4)
+}
+
+// R02.9: `with` disables renaming in the enclosing functions too.
+func (c *Ctx) r029(pk *packages.Package) {
+	const rule = "R02.9"
+	c.R.Rule(rule, "inside `with(o)` every identifier is first looked up on o, so no name visible there may change — not the locals of the function containing the statement, and not the locals of the functions *around* it that are referenced inside. The parser sets Scope.HasWith only on the function that directly contains the `with` (p.scope.Func.HasWith = true), and the renaming switch is computed from that flag alone (`m.renamer.rename = !decl.Body.Scope.HasWith && …`). The rule asks for one of the two repairs to be visible in package js: an upward propagation (an assignment `….HasWith = true` in a loop over Parent / Func), or a switch expression that consults something other than the scope's own HasWith (a nested-with predicate)")
+	info := pk.TypesInfo
+	propagated := false
+	sites := 0
+	consults := 0
+	for _, fd := range load.FuncDecls(pk) {
+		if fd.Body == nil {
+			continue
+		}
+		ast.Inspect(fd.Body, func(x ast.Node) bool {
+			as, ok := x.(*ast.AssignStmt)
+			if !ok || len(as.Lhs) != 1 || len(as.Rhs) != 1 {
+				return true
+			}
+			l := nospace(str(as.Lhs[0]))
+			if strings.HasSuffix(l, ".HasWith") {
+				if tv, ok := info.Types[as.Rhs[0]]; ok && tv.Value != nil && tv.Value.String() == "true" {
+					// inside a loop that walks upwards
+					for p := c.P.Parent(as); p != nil; p = c.P.Parent(p) {
+						if fs, ok := p.(*ast.ForStmt); ok {
+							if flow.Contains(fs, func(q ast.Node) bool {
+								a2, ok := q.(*ast.AssignStmt)
+								return ok && len(a2.Rhs) == 1 && (strings.HasSuffix(nospace(str(a2.Rhs[0])), ".Parent") || strings.HasSuffix(nospace(str(a2.Rhs[0])), ".Func"))
+							}) {
+								propagated = true
+							}
+						}
+					}
+				}
+			}
+			if strings.HasSuffix(l, ".renamer.rename") && strings.Contains(str(as.Rhs[0]), "HasWith") {
+				sites++
+				// anything besides <x>.Scope.HasWith and the KeepVarNames option?
+				other := false
+				ast.Inspect(as.Rhs[0], func(q ast.Node) bool {
+					switch e := q.(type) {
+					case *ast.CallExpr:
+						other = true
+					case *ast.SelectorExpr:
+						if e.Sel.Name != "HasWith" && e.Sel.Name != "KeepVarNames" && e.Sel.Name != "Scope" && e.Sel.Name != "Body" && e.Sel.Name != "o" {
+							if _, isField := info.Uses[e.Sel].(*types.Var); isField && strings.Contains(strings.ToLower(e.Sel.Name), "with") {
+								other = true
+							}
+						}
+					}
+					return true
+				})
+				if other {
+					consults++
+				}
+			}
+			return true
+		})
+	}
+	if sites == 0 {
+		c.R.Unres(rule, "js/renaming switch", "-", "no assignment of m.renamer.rename from a HasWith flag found")
+		return
+	}
+	c.R.Check(propagated || consults == sites, rule, "js/with in a nested function disables renaming in the enclosing functions", "-", fmt.Sprintf("%d switch sites; propagation or nested-with predicate present", sites),
+		fmt.Sprintf("the renaming switch is computed from the function's own HasWith flag at %d sites and nothing propagates the flag to enclosing functions: `function g(abc){return function(o){with(o){return abc}}}` becomes `function g(e){return function(o){with(o)return e}}` — inside the with, `e` is looked up on o first", sites))
 }
